@@ -6,7 +6,7 @@ import re
 from .lib import decision, guards, paths
 from .lib.mir import AnchorLost
 
-CONFIGS_QUICK = ["A"]
+CONFIGS_QUICK = ["A", "R"]
 CONFIGS_THOROUGH = ["A", "R", "NOAPI"]
 TECHNIQUE = "condition-under-which rules (dominating branch facts) for every header mutation in CORSProc::bite's coroutine, decision tables of the builder and of the default OPTIONS handler"
 LEVEL_TEXT = ('Decides clauses C14-a..e: CORSProc::bite sets Access-Control-Allow-Origin to the configured origin unconditionally on every path from the inner proc '
